@@ -105,12 +105,12 @@ Spec == Init /\ [][Next]_vars
 
 (* ------------------------------------------------------------------ the property, on events *)
 \* an event is what the harness records for one call:
-\*   [api, n, outcome, cpu_us, alloc, stack, small, orig, ret, orig_sha, ret_sha, nout]
+\*   [api, n, outcome, cpu_us, alloc (KiB), stack (KiB), small, orig, ret, orig_sha, ret_sha, nout]
 NoPanic(e) == e.outcome \in {"ok", "err"}                   \* not "panic", "timeout", "mem", "crash"
 \* "within time proportional to the input size" / "without unbounded ... memory growth": generous linear bounds
 CpuBudget(len) == 250000 + 5 * len                           \* microseconds of process CPU time
-MemBudget(len) == 48000000 + 600 * len                       \* bytes allocated + stack in use
-WithinBudget(e) == e.cpu_us <= CpuBudget(e.n) /\ e.alloc + e.stack <= MemBudget(e.n)
+MemBudgetKiB(len) == 46875 + (75 * len) \div 128               \* 48 MB + 600 bytes per input byte, in KiB (TLC integers are 32 bit)
+WithinBudget(e) == e.cpu_us <= CpuBudget(e.n) /\ e.alloc + e.stack <= MemBudgetKiB(e.n)     \* alloc, stack: KiB allocated / stack growth
 \* "When the byte/string convenience entry points report an error they return the caller's original data unchanged"
 ErrGivesOriginal(e) ==
   (HasOrig(e.api) /\ e.outcome = "err") =>
